@@ -280,6 +280,17 @@ def run_history(inst, cf, ops, unique=False, snapshots=True, matcher=None):
     cf = dict(cf)
     m = matcher if matcher is not None else mk_matcher(inst, cf)
     out = []
+    import logging
+    lg = logging.getLogger("be.kuleuven.cs.dtai.mapmatching")
+    old_level = lg.level
+    lg.setLevel(logging.DEBUG if cf.get('debug') else logging.ERROR)     # KeepStoppedUnderDebug
+    try:
+        return _run_history(m, cf, ops, unique, snapshots, out), m
+    finally:
+        lg.setLevel(old_level)
+
+
+def _run_history(m, cf, ops, unique, snapshots, out):
     for op, arg in ops:
         o = {'op': op, 'arg': arg, 'exc': ''}
         try:
@@ -310,4 +321,4 @@ def run_history(inst, cf, ops, unique=False, snapshots=True, matcher=None):
             o['lat'] = proj_lattice(m)
             o['dangling'] = dangling(m)
         out.append(o)
-    return out, m
+    return out
